@@ -16,6 +16,10 @@ pub struct Target {
     pub lean_name: String,
     pub kind: TargetKind,
     pub extern_fuel: bool,
+    /// `arm=<Variant>`: translate only this arm of the function's `match HasTypeWitness::WITNESS`
+    pub arm: Option<String>,
+    /// `ty=<type>`: the type the function's single generic parameter stands for in that arm
+    pub arm_ty: Option<String>,
 }
 
 #[derive(PartialEq, Clone, Copy)]
@@ -62,13 +66,17 @@ fn parse_targets(text: &str) -> Vec<Group> {
         };
         let rust_path = toks[path_i].to_string();
         let mut lean_name = rust_path.rsplit("::").next().unwrap().trim_start_matches('_').to_string();
-        if toks.len() > path_i + 2 && toks[path_i + 1] == "as" {
-            lean_name = toks[path_i + 2].to_string();
+        if let Some(pos) = toks.iter().position(|t| *t == "as") {
+            if pos + 1 < toks.len() {
+                lean_name = toks[pos + 1].to_string();
+            }
         }
         let fuel = toks.iter().any(|t| *t == "fuel");
+        let arm = toks.iter().find_map(|t| t.strip_prefix("arm=")).map(|s| s.to_string());
+        let arm_ty = toks.iter().find_map(|t| t.strip_prefix("ty=")).map(|s| s.to_string());
         let g = groups.last_mut().expect("target before any @group");
         let group = g.name.clone();
-        g.targets.push(Target { group, rust_path, lean_name, kind, extern_fuel: fuel });
+        g.targets.push(Target { group, rust_path, lean_name, kind, extern_fuel: fuel, arm, arm_ty });
     }
     groups
 }
